@@ -48,16 +48,14 @@ pub struct Program {
     /// Values that may be requested as outputs (name, type, shape).
     pub candidates: Vec<Val>,
     pub has_control_flow: bool,
-    /// For C24: the same program with every If/Loop inlined/unrolled for the
-    /// scalar inputs in `inputs`, plus the names of the values to compare.
-    pub twin: Option<Model>,
-    pub twin_outputs: Vec<String>,
 }
 
 pub struct Gen<'r> {
     r: &'r mut Rng,
     counter: usize,
     pub inputs: Vec<InputSpec>,
+    /// Integer tensors only (results are then exact whatever the kernels do in parallel).
+    pub int_only: bool,
 }
 
 fn onnx_ty(t: Ty) -> i32 {
@@ -102,7 +100,7 @@ fn broadcast(a: &[usize], b: &[usize]) -> Option<Vec<usize>> {
 
 impl<'r> Gen<'r> {
     pub fn new(r: &'r mut Rng) -> Gen<'r> {
-        Gen { r, counter: 0, inputs: Vec::new() }
+        Gen { r, counter: 0, inputs: Vec::new(), int_only: false }
     }
 
     fn fresh(&mut self, p: &str) -> String {
@@ -207,6 +205,9 @@ impl<'r> Gen<'r> {
                 true
             }
             5 => {
+                if self.int_only {
+                    return false;
+                }
                 let Some(x) = self.pick_val(s, |v| v.ty != Ty::B) else { return false };
                 let to = if x.ty == Ty::F { Ty::I } else { Ty::F };
                 self.emit(s, "Cast", &[&x.name], to, x.shape.clone(), vec![("to", Attr::Int(onnx_ty(to) as i64))]);
@@ -610,17 +611,22 @@ fn has_cf(g: &Graph) -> bool {
 
 /// Generate a program. `control_flow`: force at least one If/Loop.
 pub fn generate(r: &mut Rng, control_flow: bool) -> Program {
+    generate_with(r, control_flow, false)
+}
+
+pub fn generate_with(r: &mut Rng, control_flow: bool, int_only: bool) -> Program {
     let mut g = Gen::new(r);
+    g.int_only = int_only;
     let mut s = Scope { nodes: vec![], inits: vec![], vals: vec![], own: vec![], depth: 0 };
     let nin = g.r.urange(1, 3);
     for _ in 0..nin {
-        let ty = if g.r.chance(3, 4) { Ty::F } else { Ty::I };
+        let ty = if !int_only && g.r.chance(3, 4) { Ty::F } else { Ty::I };
         let shape = g.rand_shape();
         g.add_input(&mut s, ty, &shape, None);
     }
     // a couple of constants that operators can consume (in place) or that are requested directly
     for _ in 0..g.r.urange(0, 2) {
-        let ty = if g.r.chance(3, 4) { Ty::F } else { Ty::I };
+        let ty = if !int_only && g.r.chance(3, 4) { Ty::F } else { Ty::I };
         let shape = g.rand_shape();
         g.add_const(&mut s, ty, &shape);
     }
@@ -679,6 +685,5 @@ pub fn generate(r: &mut Rng, control_flow: bool) -> Program {
     let has_control_flow = has_cf(&graph);
     let model = Model::new(graph);
     let inputs = g.inputs.clone();
-    let (twin, twin_outputs) = if has_control_flow { crate::twin::inline(&model, &inputs) } else { (None, vec![]) };
-    Program { model, inputs, candidates, has_control_flow, twin, twin_outputs }
+    Program { model, inputs, candidates, has_control_flow }
 }
